@@ -123,7 +123,7 @@ def run_pure(ctx):
     rules += [{"pat": "none", "body": ""}, {"pat": "custom", "body": ""}, {"pat": "verb", "verb": "get", "uri": "", "body": ""},
               {"pat": "verb", "verb": "delete", "uri": "/v1/{class=x/*}", "body": ""}, {"pat": "verb", "verb": "patch", "uri": "/v1/{b.class=x/*}", "body": "b"},
               {"pat": "verb", "verb": "put", "uri": "/v1/x", "body": "*"}]
-    names = words + [w + "_" for w in reserved_pool()[:20]] + ["f_sint32", "f_double", "kinds", "page_size_", "a_b_c", "a1_b2"]
+    names = words + [w + "_" for w in reserved_pool()[:20]] + ["f_sint32", "f_double", "kinds", "page_size_", "a_b_c", "a1_b2"] + A.DIGIT_NAMES
     out = gen.impl("c04_pure", {"uris": uris, "rules": rules, "names": names})
     checks = []
     for u, got in zip(uris, out["uris"]):
@@ -691,6 +691,11 @@ def witness_api():
     o.map_field("labels", 12, "string", "string")
     svc.rpc("One", o.fqn, rep.fqn, http=("post", "/v1/{name=items/*}/{sub.class=things/*}:one"), body="sub",
             more_http=[("get", "/v1/{class=cls/*}", None), ("put", "/v2/{name=items/*}", "*")])
+    # required query parameters whose names have a letter after a digit in a later word (seeded change C04-e)
+    c = f.message("CrcRequest")
+    c.field("name", 1, "string").field("data_crc32c", 2, "uint32", required=True).field("utf8string_value", 3, "string", required=True)
+    c.field("api_v2beta", 4, "bool", required=True)
+    svc.rpc("Crc", c.fqn, rep.fqn, http=("get", "/v1/{name=items/*}:crc"))
     e = f.message("EchoRequest"); e.field("name", 1, "string")
     kr = f.message("KwReply"); kr.field("ignore_unknown_fields", 1, "string").field("note", 2, "string")
     svc.rpc("Echo", e.fqn, kr.fqn, http=("get", "/v1/{name=items/*}:echo"))
@@ -709,6 +714,8 @@ def run_witnesses(ctx):
         "Bytes": [d.b64(d.new(P + ".BytesRequest", name="items/i"))],
         "Echo": [d.b64(d.new(P + ".EchoRequest", name="items/i"))],
     }
+    fixed["Crc"] = [d.b64(d.new(P + ".CrcRequest", name="items/i", data_crc32c=123456, utf8string_value="u", api_v2beta=True)),
+                    d.b64(d.new(P + ".CrcRequest", name="items/i"))]
     one = d.new(P + ".OneRequest", name="items/i1", kind=1, tags=["a", "b"], labels={"k.x": "v"}, **{"from": "f"})
     setattr(one.sub, "class", "things/t1"); one.sub.count = 3
     fixed["One"] = [d.b64(one), d.b64(d.new(P + ".OneRequest", **{"class": "cls/c1"})), d.b64(d.new(P + ".OneRequest", name="items/i3", big=5)),
